@@ -13,6 +13,11 @@ func IsValidNatModN(N *saferith.Modulus, ints ...*saferith.Nat) bool {
 		if i == nil {
 			return false
 		}
+		// a value padded with leading zeros to an enormous announced length is small enough to pass
+		// the comparison below and would then be inverted in time quadratic in that length
+		if i.AnnouncedLen() > N.BitLen()+64 {
+			return false
+		}
 		if _, _, lt := i.CmpMod(N); lt != 1 {
 			return false
 		}
